@@ -37,6 +37,19 @@ _KEYWORDS = {"NAME", "DESC", "OBSOLETE", "SUP", "ABSTRACT", "STRUCTURAL", "AUXIL
              "distributedOperation", "dSAOperation"}
 
 
+def scribble(x):
+    """Mutates every list / dict reachable from a parsed definition (what a caller is free to do with a value it was handed)."""
+    for f in getattr(x, "__dataclass_fields__", {}):
+        v = getattr(x, f)
+        if isinstance(v, list):
+            v.append("scribble")
+        elif isinstance(v, dict):
+            for vv in v.values():
+                if isinstance(vv, list):
+                    vv.append("scribble")
+            v["X-SCRIBBLE"] = ["scribble"]
+
+
 def check_def(cls, d):
     try:
         text = str(d)
@@ -46,6 +59,9 @@ def check_def(cls, d):
             cls.from_string(" ".join(t if t in _KEYWORDS else t.swapcase() for t in text.split(" ")))
         except Exception:
             pass
+        back = cls.from_string(text)
+        # ... and what a caller does to a parsed value (its lists and dicts are mutable) must not show in a later parse of the same text
+        scribble(back)
         back = cls.from_string(text)
     except Exception as e:
         return [("C16", "from_string(str(d)) == d", repr(d)[:260], f"{type(e).__name__}: {str(e)[:100]}")]
@@ -311,6 +327,12 @@ def main():
         evals["C17"] += 1
         try:
             got = cls.from_string(text)
+            if got == want:
+                # what the caller does to the value it was handed must not show in a later parse of the same text
+                import copy
+                keep = copy.deepcopy(want)
+                scribble(got)
+                got, want = cls.from_string(text), keep
             if got != want:
                 diff = [f for f in want.__dataclass_fields__ if getattr(want, f) != getattr(got, f)]
                 rec("C17", "every field equals what the grammar denotes", {"cls": cls.__name__, "text": text}, f"fields {diff}: got {[getattr(got, f) for f in diff]!r} want {[getattr(want, f) for f in diff]!r}"[:300])
